@@ -9,6 +9,8 @@ Local Open Scope Z_scope.
 (* ---------------------------------------------------------------- list plumbing *)
 Lemma set_nth_set_nth {A} (l : list A) n x y : set_nth n x (set_nth n y l) = set_nth n x l.
 Proof. revert n; induction l as [|a l IH]; intros [|n]; cbn; try reflexivity. f_equal. apply IH. Qed.
+Lemma set_nth_comm {A} (l : list A) n m x y : n <> m -> set_nth n x (set_nth m y l) = set_nth m y (set_nth n x l).
+Proof. revert n m; induction l as [|a l IH]; intros [|n] [|m] H; cbn; try reflexivity; try congruence. f_equal. apply IH. congruence. Qed.
 Lemma set_nth_same_id {A} (l : list A) n x : nth_error l n = Some x -> set_nth n x l = l.
 Proof. revert n; induction l as [|a l IH]; intros [|n] H; cbn in *; try discriminate; [congruence|]. f_equal. apply IH. exact H. Qed.
 
@@ -422,4 +424,178 @@ Proof.
   - split; [rewrite E; unfold hbf; bs_refl|]. split; [rewrite E; unfold hbf, hb_static; cbn; repeat split; reflexivity|].
     repeat (split; [assumption|]).
     eexists. split; [exact FV|]. unfold Fv. rewrite F1, F2, F3. lia.
+Qed.
+
+(* ---------------------------------------------------------------- bankruptcy *)
+Definition bankruptcy_facts (w : hworld) (a b : nat) (hb hb' : hbank) (ac ac' : hacct) : Prop :=
+  exists ps A L bk1 i bl bad avail_n covered loss ce cov_n pre f bk2 kill bk3 bl3 bk4,
+    positions w (ha_la ac) = Ok ps /\ check_bankrupt ps false = Ok (A, L) /\
+    accrue_interest (hb_b hb) (hw_pf w) (hw_now w) = Ok bk1 /\
+    find_active (bank_pk b) (ha_la ac) = Some i /\ nth_res i (ha_la ac) = Ok bl /\
+    get_liability_amount bk1 (bl_l bl) = Ok bad /\ ZERO_AMOUNT_THRESHOLD < bad /\
+    (if hb_t22 hb then exists f0, tfee hb (hb_insv hb) = Ok f0 /\ avail_n = hb_insv hb - f0 else avail_n = hb_insv hb) /\
+    covered = fmin bad (of_int avail_n) /\ loss = fmax (bad - covered) 0 /\
+    cceil covered = Ok ce /\ to_u64_checked ce = Ok cov_n /\
+    pre_fee hb cov_n = Ok pre /\ pre <= hb_insv hb /\ tfee hb pre = Ok f /\
+    socialize_loss bk1 loss = Ok (bk2, kill) /\
+    increase_balance bk2 bl (t64 w) bad IncRepayOnly = Ok (bk3, bl3) /\
+    update_bank_cache bk3 (hw_pf w) (hw_now w) = Ok bk4 /\
+    hb' = set_hb_b (if kill then set_b_op_state OP_KILLED bk4 else bk4)
+                   (set_hb_vault (hb_vault hb + pre - f) (set_hb_insv (hb_insv hb - pre) hb)) /\
+    ac' = mkHA (set_nth i bl3 (ha_la ac)) (Z.lor (ha_flags ac) ACCOUNT_DISABLED).
+
+Lemma h_bankruptcy_effect w a b w' :
+  h_bankruptcy w a b = Ok w' ->
+  exists hb hb' ac ac', eff1 w w' a b hb hb' ac ac' /\ bankruptcy_facts w a b hb hb' ac ac'.
+Proof.
+  intros H. unfold h_bankruptcy in H.
+  apply bind_ok in H as (hb & Hhb & H). apply bind_ok in H as (ac & Hac & H).
+  apply bind_ok in H as (u1 & _ & H). apply bind_ok in H as (u2 & _ & H).
+  apply bind_ok in H as (ps & Hps & H). apply bind_ok in H as ([A L] & Hbk & H).
+  apply bind_ok in H as (bk1 & Hacc & H).
+  apply bind_ok in H as (i & Hi & H). apply bind_ok in H as (bl & Hbl & H).
+  apply bind_ok in H as (bad & Hbad & H). apply bind_ok in H as (u3 & Hthr & H). apply check_ok in Hthr.
+  apply bind_ok in H as (avail_n & Hav & H).
+  apply bind_ok in H as (d & Hd & H). apply usub_inv in Hd as [-> _].
+  apply bind_ok in H as (ce & Hce & H). apply math_ok in Hce.
+  apply bind_ok in H as (cov_n & Hcn & H). apply math_ok in Hcn.
+  apply bind_ok in H as (pre & Hpre & H). apply bind_ok in H as (u4 & Hle & H). apply check_ok in Hle.
+  apply bind_ok in H as (f & Hf & H). apply bind_ok in H as ([bk2 kill] & Hsoc & H).
+  apply bind_ok in H as (i2 & _ & H). apply bind_ok in H as ([bk3 bl3] & Hinc & H).
+  apply bind_ok in H as (bk4 & Hcache & H). apply Ok_inj in H. subst w'.
+  exists hb. eexists. exists ac. eexists. split.
+  - unfold eff1, put_hacct, put_hbank. cbn [hw_banks hw_accts hw_now hw_pf hw_risk_admin_signs].
+    repeat split; try assumption; reflexivity.
+  - exists ps, A, L, bk1, i, bl, bad, avail_n, (fmin bad (of_int avail_n)), (fmax (bad - fmin bad (of_int avail_n)) 0), ce, cov_n, pre, f, bk2, kill, bk3, bl3, bk4.
+    split; [exact Hps|]. split; [exact Hbk|]. split; [exact Hacc|].
+    split; [destruct (find_active (bank_pk b) (ha_la ac)); [apply Ok_inj in Hi; congruence|discriminate]|].
+    split; [exact Hbl|]. split; [exact Hbad|]. split; [lia|].
+    split.
+    { destruct (hb_t22 hb).
+      - apply bind_ok in Hav as (f0 & Hf0 & Hav). apply math_ok, chko_inv in Hav as [-> _]. exists f0. split; [exact Hf0|reflexivity].
+      - apply Ok_inj in Hav. symmetry. exact Hav. }
+    split; [reflexivity|]. split; [reflexivity|]. split; [exact Hce|]. split; [exact Hcn|].
+    split; [exact Hpre|]. split; [lia|]. split; [exact Hf|]. split; [exact Hsoc|]. split; [exact Hinc|].
+    split; [exact Hcache|]. split; [destruct kill; reflexivity|reflexivity].
+Qed.
+
+(* ---------------------------------------------------------------- liquidation *)
+Definition liquidate_facts (w : hworld) (liqor liqee ab lb : nat) (amount : Z)
+    (ha hl ha' hl' : hbank) (ee er ee3 er3 : hacct) : Prop :=
+  exists ba1 bl1 er0 q_liq q_fin ins_fee i1 la1 b1 bl2 b1' i2 b2 ba2 b2' i3 la3 b3 ba3 b3' i4 b4 bl3 b4' ins_n f ba4 bl5,
+    let am := of_int amount in
+    let ee1 := sort_acct ee in
+    let er1 := mkHA (set_nth i1 b1' la1) (ha_flags er0) in
+    let ee2 := mkHA (set_nth i2 b2' (ha_la ee1)) (ha_flags ee1) in
+    0 < amount /\ ab <> lb /\
+    accrue_interest (hb_b ha) (hw_pf w) (hw_now w) = Ok ba1 /\
+    accrue_interest (hb_b hl) (hw_pf w) (hw_now w) = Ok bl1 /\
+    nth_res liqor (set_nth liqee ee1 (hw_accts w)) = Ok er0 /\
+    usub q_liq q_fin = Ok ins_fee /\ 0 <= ins_fee /\
+    (* leg 1: liquidator pays the liability *)
+    wrapper_find_or_create (bank_pk lb) bl1 (ha_la er0) (hw_now w) = Ok (i1, la1) /\ nth_res i1 la1 = Ok b1 /\
+    decrease_balance bl1 b1 (t64 w) q_liq DecBypassBorrowLimit = Ok (bl2, b1') /\
+    (* leg 2: liquidatee gives up the asset *)
+    wrapper_find (bank_pk ab) (ha_la ee1) = Ok i2 /\ nth_res i2 (ha_la ee1) = Ok b2 /\
+    decrease_balance ba1 b2 (t64 w) am DecBypassBorrowLimit = Ok (ba2, b2') /\
+    (* leg 3: liquidator receives the asset *)
+    wrapper_find_or_create (bank_pk ab) ba2 (ha_la er1) (hw_now w) = Ok (i3, la3) /\ nth_res i3 la3 = Ok b3 /\
+    increase_balance ba2 b3 (t64 w) am IncBypassDepositLimit = Ok (ba3, b3') /\
+    (* leg 4: liquidatee's debt is repaid; insurance fee leaves the liquidity vault *)
+    wrapper_find (bank_pk lb) (ha_la ee2) = Ok i4 /\ nth_res i4 (ha_la ee2) = Ok b4 /\
+    increase_balance bl2 b4 (t64 w) q_fin IncRepayOnly = Ok (bl3, b4') /\
+    to_u64_checked ins_fee = Ok ins_n /\ ins_n <= hb_vault hl /\ tfee hl ins_n = Ok f /\
+    I128_MIN <= b_ins bl3 + ffrac ins_fee <= I128_MAX /\
+    update_bank_cache ba3 (hw_pf w) (hw_now w) = Ok ba4 /\
+    update_bank_cache (set_b_ins (b_ins bl3 + ffrac ins_fee) bl3) (hw_pf w) (hw_now w) = Ok bl5 /\
+    ha' = set_hb_b ba4 ha /\
+    hl' = set_hb_insv (hb_insv hl + ins_n - f) (set_hb_vault (hb_vault hl - ins_n) (set_hb_b bl5 hl)) /\
+    ee3 = mkHA (set_nth i4 b4' (ha_la ee2)) (ha_flags ee2) /\
+    er3 = sort_acct (mkHA (set_nth i3 b3' la3) (ha_flags er1)).
+
+Lemma h_liquidate_effect w liqor liqee ab lb amount w' :
+  h_liquidate w liqor liqee ab lb amount = Ok w' ->
+  exists ha hl ha' hl' ee er ee3 er3,
+    nth_bank w ab = Ok ha /\ nth_bank w lb = Ok hl /\ nth_acct w liqee = Ok ee /\ nth_acct w liqor = Ok er /\
+    hw_banks w' = set_nth lb hl' (set_nth ab ha' (hw_banks w)) /\
+    hw_accts w' = set_nth liqor er3 (set_nth liqee ee3 (hw_accts w)) /\
+    hw_now w' = hw_now w /\ hw_pf w' = hw_pf w /\ hw_risk_admin_signs w' = hw_risk_admin_signs w /\
+    liquidate_facts w liqor liqee ab lb amount ha hl ha' hl' ee er ee3 er3.
+Proof.
+  intros H. unfold h_liquidate in H.
+  apply bind_ok in H as (u1 & Hamt & H). apply check_ok in Hamt.
+  apply bind_ok in H as (u2 & Hne & H). apply check_ok in Hne.
+  apply bind_ok in H as (ha & Hha & H). apply bind_ok in H as (hl & Hhl & H).
+  apply bind_ok in H as (u3 & _ & H).
+  apply bind_ok in H as (ee & Hee & H). apply bind_ok in H as (er & Her & H).
+  apply bind_ok in H as (u4 & _ & H). apply bind_ok in H as (u5 & _ & H). apply bind_ok in H as (u6 & _ & H).
+  apply bind_ok in H as (u7 & _ & H). apply bind_ok in H as (u8 & _ & H). apply bind_ok in H as (u9 & _ & H).
+  apply bind_ok in H as (u10 & _ & H).
+  apply bind_ok in H as (ba1 & Hacca & H). apply bind_ok in H as (bl1 & Haccl & H).
+  set (w1 := put_hacct (put_hbank (put_hbank w ab (set_hb_b ba1 ha)) lb (set_hb_b bl1 hl)) liqee (sort_acct ee)) in H.
+  apply bind_ok in H as (u11 & _ & H). apply bind_ok in H as (ps & _ & H).
+  apply bind_ok in H as ([[pre_health x1] x2] & _ & H).
+  apply bind_ok in H as (u12 & _ & H). apply bind_ok in H as (ap & _ & H). apply bind_ok in H as (u13 & _ & H).
+  apply bind_ok in H as (u14 & _ & H). apply bind_ok in H as (lp & _ & H). apply bind_ok in H as (u15 & _ & H).
+  apply bind_ok in H as (fsum & _ & H). apply bind_ok in H as (final_d & _ & H). apply bind_ok in H as (liq_d & _ & H).
+  apply bind_ok in H as (v1 & _ & H). apply bind_ok in H as (q_liq & _ & H).
+  apply bind_ok in H as (v2 & _ & H). apply bind_ok in H as (q_fin & _ & H).
+  apply bind_ok in H as (ins_fee & Hif & H). apply bind_ok in H as (u16 & Hif0 & H). apply assert_ok in Hif0.
+  apply bind_ok in H as (er0 & Her0 & H).
+  apply bind_ok in H as ([i1 la1] & Hloc1 & H). apply bind_ok in H as (b1 & Hb1 & H).
+  apply bind_ok in H as ([bl2 b1'] & Hdec1 & H).
+  apply bind_ok in H as (i2 & Hi2 & H). apply bind_ok in H as (b2 & Hb2 & H).
+  apply bind_ok in H as (pre_bal & _ & H). apply bind_ok in H as (u17 & _ & H).
+  apply bind_ok in H as ([ba2 b2'] & Hdec2 & H).
+  apply bind_ok in H as ([i3 la3] & Hloc3 & H). apply bind_ok in H as (b3 & Hb3 & H).
+  apply bind_ok in H as ([ba3 b3'] & Hinc3 & H).
+  apply bind_ok in H as (ins_n & Hinsn & H).
+  apply bind_ok in H as (i4 & Hi4 & H). apply bind_ok in H as (b4 & Hb4 & H).
+  apply bind_ok in H as ([bl3 b4'] & Hinc4 & H).
+  apply bind_ok in H as (hl0 & Hhl0 & H).
+  apply bind_ok in H as (u18 & Hvle & H). apply check_ok in Hvle.
+  apply bind_ok in H as (f & Hf & H).
+  apply bind_ok in H as (ins' & Hins' & H).
+  apply bind_ok in H as (ba4 & Hca & H). apply bind_ok in H as (bl5 & Hcl & H).
+  apply bind_ok in H as (ha0 & Hha0 & H).
+  apply bind_ok in H as (u19 & _ & H). apply bind_ok in H as (ps2 & _ & H). apply bind_ok in H as (h2 & _ & H).
+  apply bind_ok in H as (u20 & _ & H). apply Ok_inj in H. subst w'.
+  assert (Hnelb : ab <> lb) by (destruct (Nat.eqb_spec ab lb); [discriminate|assumption]).
+  (* the two bank entries of w1 *)
+  assert (Ehl0 : hl0 = set_hb_b bl1 hl).
+  { unfold w1 in Hhl0. unfold nth_bank, put_hacct in Hhl0. cbn [hw_banks] in Hhl0.
+    assert (X : nth_bank (put_hbank w ab (set_hb_b ba1 ha)) lb = Ok hl) by (rewrite nth_bank_put_other by assumption; exact Hhl).
+    pose proof (put_hbank_get _ lb (set_hb_b bl1 hl) _ X) as Y. unfold nth_bank in Y. rewrite Hhl0 in Y. apply Ok_inj in Y. exact Y. }
+  assert (Eha0 : ha0 = set_hb_b ba1 ha).
+  { unfold w1 in Hha0. unfold nth_bank, put_hacct in Hha0. cbn [hw_banks] in Hha0.
+    pose proof (nth_bank_put_other (put_hbank w ab (set_hb_b ba1 ha)) lb (set_hb_b bl1 hl) ab ltac:(congruence)) as X.
+    unfold nth_bank in X. rewrite X in Hha0. pose proof (put_hbank_get w ab (set_hb_b ba1 ha) _ Hha) as Y.
+    unfold nth_bank in Y. rewrite Hha0 in Y. apply Ok_inj in Y. exact Y. }
+  assert (Eins : ins' = b_ins bl3 + ffrac ins_fee /\ I128_MIN <= b_ins bl3 + ffrac ins_fee <= I128_MAX).
+  { destruct (cadd (b_ins bl3) (ffrac ins_fee)) as [v|e] eqn:E; [|discriminate]. apply Ok_inj in Hins'. subst v.
+    apply cadd_inv in E as [-> R]. split; [reflexivity|exact R]. }
+  destruct Eins as (-> & Hrange).
+  assert (Hinsn' : to_u64_checked ins_fee = Ok ins_n).
+  { destruct (to_u64_checked ins_fee) as [v|e]; [apply Ok_inj in Hinsn; congruence|discriminate]. }
+  subst hl0 ha0.
+  exists ha, hl. eexists. eexists. exists ee, er. eexists. eexists.
+  split; [exact Hha|]. split; [exact Hhl|]. split; [exact Hee|]. split; [exact Her|].
+  split.
+  { unfold put_hacct, put_hbank. cbn [hw_banks]. unfold w1, put_hacct, put_hbank. cbn [hw_banks].
+    rewrite (set_nth_comm _ lb ab) by congruence. rewrite set_nth_set_nth.
+    rewrite (set_nth_comm _ ab lb) by congruence. rewrite set_nth_set_nth. reflexivity. }
+  split.
+  { unfold put_hacct, put_hbank. cbn [hw_accts]. unfold w1, put_hacct, put_hbank. cbn [hw_accts].
+    rewrite !set_nth_set_nth. reflexivity. }
+  split; [reflexivity|]. split; [reflexivity|]. split; [reflexivity|].
+  exists ba1, bl1, er0, q_liq, q_fin, ins_fee, i1, la1, b1, bl2, b1', i2, b2, ba2, b2', i3, la3, b3, ba3, b3', i4, b4, bl3, b4', ins_n, f, ba4, bl5.
+  cbv zeta.
+  split; [lia|]. split; [exact Hnelb|]. split; [exact Hacca|]. split; [exact Haccl|].
+  split; [exact Her0|]. split; [exact Hif|]. split; [lia|].
+  split; [exact Hloc1|]. split; [exact Hb1|]. split; [exact Hdec1|].
+  split; [exact Hi2|]. split; [exact Hb2|]. split; [exact Hdec2|].
+  split; [exact Hloc3|]. split; [exact Hb3|]. split; [exact Hinc3|].
+  split; [exact Hi4|]. split; [exact Hb4|]. split; [exact Hinc4|].
+  split; [exact Hinsn'|]. split; [cbn [set_hb_b hb_vault] in Hvle; lia|]. split; [exact Hf|]. split; [exact Hrange|].
+  split; [exact Hca|]. split; [exact Hcl|]. repeat split; reflexivity.
 Qed.
